@@ -591,3 +591,150 @@ Proof.
   exfalso. pose proof (accepted_without_result_is_referenced_proved ps nc a b ops He r Hr Hs En) as Hin.
   fold s in Hin. rewrite (closed_live s (run_CI ops _ (init_CI ps nc a b)) Hc), Ht in Hin. destruct Hin.
 Qed.
+
+(* ---- running node.close() reaches a closed state ---- *)
+Definition close_ops (s : st) (lo hi : N) : list op :=
+  CloseR :: map CloseP (N_below (cps s)) ++ [CloseC; CloseS; CloseL; AddReads lo hi].
+Definition closing (o : op) : bool :=
+  match o with CloseR | CloseP _ | CloseC | CloseS | CloseL | AddReads _ _ => true | _ => false end.
+Definition flags_mono (s s' : st) : Prop :=
+  cps s' = cps s /\ (rd_stop (R s) = true -> rd_stop (R s') = true) /\
+  (forall k, p_stop (P s) k = true -> p_stop (P s') k = true) /\
+  (x_open (C s) = false -> x_open (C s') = false) /\ (x_open (S s) = false -> x_open (S s') = false) /\
+  (lq_stop s = true -> lq_stop s' = true).
+Lemma flags_mono_refl : forall s, flags_mono s s.
+Proof. intros. unfold flags_mono. repeat split; auto. Qed.
+Lemma flags_mono_trans : forall a b c, flags_mono a b -> flags_mono b c -> flags_mono a c.
+Proof.
+  intros a b c (A1 & A2 & A3 & A4 & A5 & A6) (B1 & B2 & B3 & B4 & B5 & B6). unfold flags_mono.
+  repeat split; auto; congruence.
+Qed.
+Lemma step0_flags : forall s o, closing o = true -> flags_mono s (step0 s o).
+Proof.
+  intros s o Hc. destruct o; try discriminate Hc; cbn [step0]; unfold x_close; crushi; unfold flags_mono; cbn;
+    repeat split; auto; try congruence;
+    intros k1 Hk1; unfold fupd; destruct (k1 =? _); auto.
+Qed.
+Lemma step_ok_inv : forall s o, h_err (H (step s o)) = 0 -> h_err (H s) = 0 /\ step s o = step0 s o.
+Proof.
+  intros s o. unfold step. destruct (h_err (H s) =? 0) eqn:E0; cbn [negb].
+  - apply N.eqb_eq in E0. destruct (h_err (H (step0 s o)) =? 0) eqn:E1; [auto|].
+    cbn. intros X. apply N.eqb_neq in E1. contradiction.
+  - intros X. apply N.eqb_neq in E0. contradiction.
+Qed.
+Lemma run_app : forall a b s, run (a ++ b) s = run b (run a s).
+Proof. intros. unfold run. apply fold_left_app. Qed.
+Lemma run_err0 : forall l s, h_err (H (run l s)) = 0 -> h_err (H s) = 0.
+Proof.
+  induction l as [|o l IH]; intros s He; [exact He|]. cbn in He. apply IH in He. apply step_ok_inv in He. apply He.
+Qed.
+Lemma run_closing_mono : forall l s, Forall (fun o => closing o = true) l -> h_err (H (run l s)) = 0 -> flags_mono s (run l s).
+Proof.
+  induction l as [|o l IH]; intros s Hf He; [apply flags_mono_refl|]. inversion Hf; subst. cbn in *.
+  pose proof (run_err0 l _ He) as He1. destruct (step_ok_inv s o He1) as [_ E].
+  eapply flags_mono_trans; [|apply IH; assumption]. rewrite E. apply step0_flags. assumption.
+Qed.
+
+Lemma run_closeP_all : forall l s, h_err (H (run (map CloseP l) s)) = 0 ->
+  forall k, In k l -> k < cps s -> p_stop (P (run (map CloseP l) s)) k = true.
+Proof.
+  induction l as [|k0 l IH]; intros s He k Hin Hk; [destruct Hin|]. cbn [map run fold_left] in *.
+  pose proof (run_err0 _ _ He) as He1. destruct (step_ok_inv s (CloseP k0) He1) as [_ E].
+  assert (Hm : flags_mono (step s (CloseP k0)) (run (map CloseP l) (step s (CloseP k0)))).
+  { apply run_closing_mono; [|exact He]. apply Forall_forall. intros o Ho. apply in_map_iff in Ho. destruct Ho as (x & <- & _). reflexivity. }
+  destruct Hin as [<-|Hin].
+  - apply Hm. rewrite E. cbn. unfold fupd. rewrite (N.mod_small _ _ Hk), N.eqb_refl. reflexivity.
+  - apply IH; [exact He | exact Hin|]. rewrite E. cbn. exact Hk.
+Qed.
+
+Lemma close_reaches_closed_proved : forall s lo hi, let s2 := run (close_ops s lo hi) s in
+  h_err (H s2) = 0 -> closed s2 /\ taken (R s2) = [].
+Proof.
+  intros s lo hi s2 He. unfold s2, close_ops in *.
+  change (CloseR :: map CloseP (N_below (cps s)) ++ [CloseC; CloseS; CloseL; AddReads lo hi])
+    with ([CloseR] ++ map CloseP (N_below (cps s)) ++ [CloseC] ++ [CloseS] ++ [CloseL] ++ [AddReads lo hi]) in *.
+  rewrite !run_app in *.
+  set (s_r := run [CloseR] s) in *. set (s_p := run (map CloseP (N_below (cps s))) s_r) in *.
+  set (s_c := run [CloseC] s_p) in *. set (s_s := run [CloseS] s_c) in *. set (s_l := run [CloseL] s_s) in *.
+  set (s_a := run [AddReads lo hi] s_l) in *.
+  assert (El := run_err0 [AddReads lo hi] s_l He). assert (Es := run_err0 [CloseL] s_s El).
+  assert (Ec := run_err0 [CloseS] s_c Es). assert (Ep := run_err0 [CloseC] s_p Ec).
+  assert (Er := run_err0 _ s_r Ep).
+  assert (Mr : flags_mono s s_r) by (apply run_closing_mono; [repeat constructor | exact Er]).
+  assert (Mp : flags_mono s_r s_p).
+  { apply run_closing_mono; [|exact Ep]. apply Forall_forall. intros o Ho. apply in_map_iff in Ho. destruct Ho as (x & <- & _). reflexivity. }
+  assert (Mc : flags_mono s_p s_c) by (apply run_closing_mono; [repeat constructor | exact Ec]).
+  assert (Ms : flags_mono s_c s_s) by (apply run_closing_mono; [repeat constructor | exact Es]).
+  assert (Ml : flags_mono s_s s_l) by (apply run_closing_mono; [repeat constructor | exact El]).
+  assert (Ma : flags_mono s_l s_a) by (apply run_closing_mono; [repeat constructor | exact He]).
+  assert (Fr : rd_stop (R s_r) = true).
+  { unfold s_r. cbn [run fold_left]. destruct (step_ok_inv s CloseR Er) as [_ E]. rewrite E. reflexivity. }
+  assert (Fp : forall k, k < cps s -> p_stop (P s_p) k = true).
+  { intros k Hk. apply (run_closeP_all (N_below (cps s)) s_r Ep k); [apply N_below_in; exact Hk|].
+    destruct Mr as [X _]. rewrite X. exact Hk. }
+  assert (Fc : x_open (C s_c) = false).
+  { unfold s_c. cbn [run fold_left]. destruct (step_ok_inv s_p CloseC Ec) as [_ E]. rewrite E. cbn [step0].
+    destruct (x_open (C s_p)) eqn:Eo; [|exact Eo]. unfold x_close. destruct (x_pend (C s_p)); reflexivity. }
+  assert (Fs : x_open (S s_s) = false).
+  { unfold s_s. cbn [run fold_left]. destruct (step_ok_inv s_c CloseS Es) as [_ E]. rewrite E. cbn [step0].
+    unfold x_close. destruct (x_pend (S s_c)); reflexivity. }
+  assert (Fl : lq_stop s_l = true).
+  { unfold s_l. cbn [run fold_left]. destruct (step_ok_inv s_s CloseL El) as [_ E]. rewrite E. cbn [step0].
+    destruct (lq_pend s_s); reflexivity. }
+  assert (Mra : flags_mono s_r s_a) by (repeat (eapply flags_mono_trans; [eassumption|]); apply flags_mono_refl).
+  assert (Mpa : flags_mono s_p s_a) by (repeat (eapply flags_mono_trans; [eassumption|]); apply flags_mono_refl).
+  assert (Mca : flags_mono s_c s_a) by (repeat (eapply flags_mono_trans; [eassumption|]); apply flags_mono_refl).
+  assert (Msa : flags_mono s_s s_a) by (repeat (eapply flags_mono_trans; [eassumption|]); apply flags_mono_refl).
+  split.
+  - unfold closed. split; [apply Mra; exact Fr|]. split; [|split; [apply Mca; exact Fc | split; [apply Msa; exact Fs | apply Ma; exact Fl]]].
+    intros k Hk. apply Mpa. apply Fp.
+    assert (X : cps s_a = cps s).
+    { destruct Ma as [A _], Ml as [B _], Ms as [C0 _], Mc as [D _], Mp as [E0 _], Mr as [F _]. congruence. }
+    rewrite X in Hk. exact Hk.
+  - unfold s_a. cbn [run fold_left]. destruct (step_ok_inv s_l (AddReads lo hi) He) as [_ E]. rewrite E. cbn [step0].
+    assert (Rl : rd_stop (R s_l) = true).
+    { assert (M : flags_mono s_r s_l) by (exact (flags_mono_trans _ _ _ Mp (flags_mono_trans _ _ _ Mc (flags_mono_trans _ _ _ Ms Ml)))). apply M. exact Fr. }
+    destruct (taken (R s_l)) eqn:Et; [exact Et|]. rewrite Rl. cbn [read_add_terminates_when_stopped]. reflexivity.
+Qed.
+
+(* (3) node.close(), table by table, followed by the add() of a handleReadIndex that was under
+   way: if no step panics, everything that was still referenced has been terminated - every accepted
+   request has exactly one terminal result *)
+Lemma close_terminates_referenced_proved : forall ps nc a b ops lo hi,
+  let s := run ops (init ps nc a b) in
+  env_ok (ops ++ close_ops s lo hi) (init ps nc a b) ->
+  let s2 := run (close_ops s lo hi) s in
+  h_err (H s2) = 0 ->
+  forall r, r < h_nreq (H s2) -> r_status (h_reqs (H s2) r) = 1 -> nterm (got s2 r) = 1%nat.
+Proof.
+  intros ps nc a b ops lo hi s Henv s2 He r Hr Hs.
+  destruct (close_reaches_closed_proved s lo hi He) as [Hc Ht]. fold s2 in Hc, Ht.
+  assert (E : s2 = run (ops ++ close_ops s lo hi) (init ps nc a b)) by (unfold s2, s; rewrite run_app; reflexivity).
+  rewrite E in *. apply (exactly_one_when_closed_proved ps nc a b _ Henv Hc Ht r Hr Hs).
+Qed.
+
+(* where an accepted request without a result is referenced *)
+Lemma referenced_where_proved : forall ps nc a b ops, env_ok ops (init ps nc a b) ->
+  let s := run ops (init ps nc a b) in
+  forall r, r < h_nreq (H s) -> r_status (h_reqs (H s) r) = 1 -> nterm (got s r) = 0%nat ->
+  exists sl, sr sl = r /\
+    ((exists key, In (key, sl) (pend (P s)) /\ p_stop (P s) (key mod cps s) = false) \/
+     In sl (rq (R s)) \/ In sl (taken (R s)) \/
+     (rd_stop (R s) = false /\ In sl (batch_slots (batches (R s)))) \/
+     x_pend (C s) = Some sl \/ x_pend (S s) = Some sl \/ lq_pend s = Some sl).
+Proof.
+  intros ps nc a b ops He s r Hr Hs Hn.
+  pose proof (accepted_without_result_is_referenced_proved ps nc a b ops He r Hr Hs Hn) as Hin. fold s in Hin.
+  apply in_map_iff in Hin. destruct Hin as (sl & E & Hin). exists sl. split; [exact E|].
+  unfold live, live_pend, live_reads in Hin. rewrite !in_app_iff in Hin.
+  destruct Hin as [Hin|[[Hin|[Hin|Hin]]|[Hin|[Hin|Hin]]]].
+  - left. apply in_map_iff in Hin. destruct Hin as ([key sl'] & E2 & Hin). cbn in E2. subst sl'.
+    apply filter_In in Hin. destruct Hin as [Hin Ha]. exists key. split; [exact Hin|].
+    unfold alive in Ha. cbn in Ha. apply negb_true_iff in Ha. exact Ha.
+  - auto.
+  - auto.
+  - destruct (rd_stop (R s)); [destruct Hin | right; right; right; left; auto].
+  - destruct (x_pend (C s)) as [x|]; [destruct Hin as [<-|[]]; auto 10 | destruct Hin].
+  - destruct (x_pend (S s)) as [x|]; [destruct Hin as [<-|[]]; auto 10 | destruct Hin].
+  - destruct (lq_pend s) as [x|]; [destruct Hin as [<-|[]]; auto 10 | destruct Hin].
+Qed.
